@@ -13,7 +13,7 @@ def sqrt_table(maxd):
 
 
 def validate(ctx, module, traces, extra_input=None, tag="v", workers=16, timeout=7200, shard=None,
-             constants=None):
+             constants=None, spec="Spec", invariants=()):
     """Run TLC on spec/<module>.tla over `traces` (list of dicts with tid, ev).
     Returns dict tid -> ("accept",) | ("reject", ev_index, clause); known findings are appended to
     ctx.known by the caller through the returned `known` list."""
@@ -25,13 +25,14 @@ def validate(ctx, module, traces, extra_input=None, tag="v", workers=16, timeout
     path = os.path.join(ctx.work, "trace_%s_%s.json" % (module, tag))
     with open(path, "w") as f:
         json.dump(inp, f)
-    cfg = tlc.write_cfg(os.path.join(ctx.work, "%s_%s.cfg" % (module, tag)), invariants=["NoReject"],
-                        constants=constants)
+    cfg = tlc.write_cfg(os.path.join(ctx.work, "%s_%s.cfg" % (module, tag)), spec=spec,
+                        invariants=["NoReject"] + list(invariants), constants=constants)
     res = tlc.run_tlc(module, cfg, ctx.work, workers=workers, timeout=timeout, continue_=True,
                       env={"TRACE_FILE": path}, tag=tag)
     ctx.add_tlc(res)
     if res.errors or not res.completed:
         raise tlc.MachineryError("%s failed: %s" % (module, (res.errors[:2] or res.stdout[-1500:])))
+    ctx.last_trace_result = res
     verdicts = {}
     for a in res.tagged.get("ACC", []):
         verdicts[a["tid"]] = ("accept",)
@@ -45,6 +46,9 @@ def validate(ctx, module, traces, extra_input=None, tag="v", workers=16, timeout
         if v[0] == "reject" and v[2].startswith("machinery:"):
             raise tlc.MachineryError("%s: trace %s: %s" % (module, tid, v[2]))
     nrej = sum(1 for v in verdicts.values() if v[0] == "reject")
+    for v in res.violated:
+        if v != "NoReject":
+            ctx.violation("model:" + v, {"module": module})
     if (nrej > 0) != ("NoReject" in res.violated):
         raise tlc.MachineryError("%s: TLC invariant verdict and printed verdicts disagree" % module)
     return verdicts, known
